@@ -15,6 +15,15 @@ pub broadcast axiom fn axiom_sorted_listing_unique<K>(s: Seq<K>, set: Set<K>)
     requires vstd::std_specs::btree::key_obeys_cmp_spec::<K>(), #[trigger] sorted_listing(s, set)
     ensures s == canon(set);
 
+// BTreeSet::iter lists the set in ascending order: its dereferenced listing is the canonical one (uniqueness of the ascending
+// listing, transported through the references)
+pub broadcast axiom fn axiom_btree_set_iter_is_canon<K>(s: Seq<&K>)
+    requires
+        vstd::std_specs::btree::key_obeys_cmp_spec::<K>(),
+        s.no_duplicates(),
+        #[trigger] vstd::std_specs::btree::increasing_seq(s),
+    ensures s.unref() == canon(s.unref().to_set());
+
 // Default::default() of the collections used as map values
 pub uninterp spec fn spec_default<V>() -> V;
 pub broadcast axiom fn axiom_default_btreeset<K>()
@@ -35,21 +44,17 @@ pub fn vx_btree_entry_or_default<'m, K: Ord, V: Default>(m: &'m mut std::collect
         },
 { m.entry(k).or_default() }
 
-// by-value iteration of a BTreeMap: ascending keys, each with its value
-#[verifier::external_type_specification]
-#[verifier::external_body]
-#[verifier::reject_recursive_types(K)]
-#[verifier::reject_recursive_types(V)]
-#[verifier::reject_recursive_types(A)]
-pub struct ExBTreeMapIntoIter<K, V, A: std::alloc::Allocator + Clone>(std::collections::btree_map::IntoIter<K, V, A>);
-
+// by-value iteration of a BTreeMap: ascending keys, each with its value. btree_map::IntoIter cannot be given a usable
+// external_type_specification here (its associated-type projection is not linked), so `for .. in map` is routed through an eager
+// shim (loop directive iter_wrap): the entries are collected in iteration order and iterated from the Vec
 pub open spec fn keys_of<K, V>(s: Seq<(K, V)>) -> Seq<K> { Seq::new(s.len(), |i: int| s[i].0) }
-pub assume_specification<K, V, A: std::alloc::Allocator + Clone>[ <std::collections::BTreeMap<K, V, A> as core::iter::IntoIterator>::into_iter ](m: std::collections::BTreeMap<K, V, A>) -> (it: std::collections::btree_map::IntoIter<K, V, A>)
+#[verifier::external_body]
+pub fn vx_btree_map_into_iter<K, V>(m: std::collections::BTreeMap<K, V>) -> (it: std::vec::IntoIter<(K, V)>)
     ensures
-        vstd::std_specs::btree::key_obeys_cmp_spec::<K>() ==> {
-            &&& sorted_listing(keys_of(it.remaining()), m@.dom())
-            &&& forall|i: int| 0 <= i < it.remaining().len() ==> (#[trigger] it.remaining()[i]).1 == m@[it.remaining()[i].0]
-        },
-        it.obeys_prophetic_iter_laws(), it.decrease() is Some;
+        it.obeys_prophetic_iter_laws(),
+        it.decrease() is Some,
+        vstd::std_specs::btree::key_obeys_cmp_spec::<K>() ==> sorted_listing(keys_of(it.remaining()), m@.dom()),
+        vstd::std_specs::btree::key_obeys_cmp_spec::<K>() ==> (forall|i: int| 0 <= i < it.remaining().len() ==> (#[trigger] it.remaining()[i]).1 == m@[it.remaining()[i].0]),
+{ m.into_iter().collect::<Vec<_>>().into_iter() }
 
 } // verus!
